@@ -207,7 +207,7 @@ int radudpget(int s, struct client **client, struct server **server, unsigned ch
                     continue;
                 gettimeofday(&now, NULL);
                 if (!*client && addr_equal((struct sockaddr *)&from, c->addr)) {
-                    c->expiry = now.tv_sec + 60;
+                    c->expiry = now.tv_sec + (p->dupinterval > 60 ? p->dupinterval : 60);
                     *client = c;
                 }
                 if (c->expiry >= now.tv_sec)
@@ -233,7 +233,7 @@ int radudpget(int s, struct client **client, struct server **server, unsigned ch
                 c->sock = s;
                 c->addr = fromcopy;
                 gettimeofday(&now, NULL);
-                c->expiry = now.tv_sec + 60;
+                c->expiry = now.tv_sec + (p->dupinterval > 60 ? p->dupinterval : 60);
                 *client = c;
             }
             pthread_mutex_unlock(p->lock);
